@@ -96,7 +96,9 @@ def ms_of(dt):
     epoch = datetime.datetime(1970, 1, 1)
     # simulated datetimes are NewDateTime/ datetime naive utc
     delta = dt - epoch
-    return int(round(delta.total_seconds() * 1000)) - T0
+    v = int(round(delta.total_seconds() * 1000)) - T0
+    # (a wall-clock reading that leaked into a simulation is years away: keep it inside TLC's 32-bit integers)
+    return max(-2000000000, min(2000000000, v))
 
 
 # ----------------------------------------------------------------------------------------
@@ -252,7 +254,9 @@ class Recorder:
             pts, snaps, acc = [], [], {}
             opener = gzip.open if m["file"].endswith(".gz") else open
             with opener(m["file"], "rt") as f:
-                for line in f:
+                for li, line in enumerate(f):
+                    if m.get("max_lines") and li >= m["max_lines"]:
+                        break
                     d = json.loads(line)
                     changed = False
                     for mc in d.get("mc", []):
@@ -617,6 +621,10 @@ class Scripted(BaseStrategy):
                                 raise RuntimeError("injected inside the transaction block")
                             else:
                                 do_action(rec, self, market, t, b)
+                elif a["op"] == "realtime_raise":
+                    # the documented way to read the wall clock inside a simulation; the strategy's code fails inside it
+                    with market.flumine.simulated_datetime.real_time():
+                        raise RuntimeError("injected inside real_time()")
                 elif a["op"] == "raise":
                     raise RuntimeError("injected in %s" % phase)
                 else:
@@ -1320,8 +1328,18 @@ def run_scenario(scn, keep_dir=None, snapshots=True, extra_setup=None):
     T0 = int(scn.get("t0", T0))
     paths = []
     for i, m in enumerate(scn["markets"]):
-        if m.get("file"):       # a recorded stream file is used as it is
-            paths.append(m["file"])
+        if m.get("file"):       # a recorded stream file is used as it is (or its first max_lines lines)
+            if m.get("max_lines"):
+                opener = gzip.open if m["file"].endswith(".gz") else open
+                cut = os.path.join(workdir, os.path.basename(m["file"]).replace(".gz", ""))
+                with opener(m["file"], "rt") as f, open(cut, "w") as g:
+                    for li, line in enumerate(f):
+                        if li >= m["max_lines"]:
+                            break
+                        g.write(line)
+                paths.append(cut)
+            else:
+                paths.append(m["file"])
             continue
         p = os.path.join(workdir, m["id"])
         write_market_file(p, m)
@@ -1361,7 +1379,16 @@ def run_scenario(scn, keep_dir=None, snapshots=True, extra_setup=None):
                 min_bet_validation=c.get("min_bet_validation", cfg["min_bet_validation"]),
             )
             cl.append(client)
-        framework = FlumineSimulation(client=cl[0])
+        if cfg.get("mw_subclass_first"):
+            # a user's own subclass of the simulation middleware, registered before the client is added: it is THE
+            # simulation middleware, no second default instance may be added next to it
+            class UserSimulatedMiddleware(SimulatedMiddleware):
+                pass
+            framework = FlumineSimulation()
+            framework.add_market_middleware(UserSimulatedMiddleware())
+            framework.add_client(cl[0])
+        else:
+            framework = FlumineSimulation(client=cl[0])
         for c in cl[1:]:
             framework.add_client(c)
         rec.flumine = framework
@@ -1378,7 +1405,7 @@ def run_scenario(scn, keep_dir=None, snapshots=True, extra_setup=None):
             mf = {} if s.get("empty_filter") else {
                 "markets": [paths[i] for i in s.get("markets", range(len(paths)))],
                 "event_processing": bool(cfg["event_processing"]),
-                "listener_kwargs": dict(cfg.get("listener_kwargs", {})),
+                "listener_kwargs": dict(s.get("listener_kwargs", cfg.get("listener_kwargs", {}))),      # a strategy may filter its own stream
             }
             if cfg.get("event_groups") and mf:
                 mf["event_groups"] = cfg["event_groups"]
